@@ -224,7 +224,7 @@ func mkBin(op string, a, b *Term) *Term {
 	if op == "==" || op == "!=" {
 		nonNil := func(t *Term) bool {
 			switch t.Op {
-			case "mkchan", "mkmap", "mkslice", "alloc", "closure", "fn", "typednil":
+			case "mkchan", "mkmap", "mkslice", "alloc", "closure", "fn", "typednil", "ctxerr":
 				return true
 			}
 			return false
@@ -308,7 +308,48 @@ func mkBin(op string, a, b *Term) *Term {
 	case ">=":
 		op, a, b = "<=", b, a
 	}
+	// a <= n-1 is a < n on integers (the last index of a slice as a loop bound)
+	if op == "<=" {
+		if m := minusOne(b); m != nil {
+			return mkBin("<", a, m)
+		}
+	}
 	return &Term{Op: "bin", Aux: op, Args: []*Term{a, b}}
+}
+
+// minusOne: t is x + (-1) or x - 1 for an integer quantity x that cannot wrap (a length, or a sum with one): x.
+func minusOne(t *Term) *Term {
+	if t == nil || t.Op != "bin" {
+		return nil
+	}
+	if t.Aux == "-" && len(t.Args) == 2 {
+		if k, ok := t.Args[1].IntConst(); ok && k == 1 && (t.Args[0].Op == "len" || t.Args[0].Op == "cap") {
+			return t.Args[0]
+		}
+		return nil
+	}
+	if t.Aux != "+" {
+		return nil
+	}
+	var rest []*Term
+	found, hasLen := false, false
+	for _, x := range t.Args {
+		if k, ok := x.IntConst(); ok && k == -1 && !found {
+			found = true
+			continue
+		}
+		if x.Op == "len" || x.Op == "cap" {
+			hasLen = true
+		}
+		rest = append(rest, x)
+	}
+	if !found || !hasLen || len(rest) == 0 {
+		return nil
+	}
+	if len(rest) == 1 {
+		return rest[0]
+	}
+	return &Term{Op: "bin", Aux: "+", Args: rest}
 }
 
 // lowerBoundZero: t >= 0 by construction.
